@@ -1,9 +1,9 @@
 """C07 — multi-source output is a whole-line interleaving with correct attribution."""
 
 MODULE = "DtailModel.Props.C07"
-GROUPS = ["C07"]
+GROUPS = ["C07", "C01"]
 BINS = True
-LOGGER = {"c07.multi": "none", "c07.sched": "stdout"}
+LOGGER = {"c07.multi": "none", "c07.sched": "stdout", "c07.pipe": "none"}
 JOBS = 8
 BUDGET = {"quick": 14, "thorough": 200}
 SCHED_BUDGET = {"quick": 160, "thorough": 4000}
@@ -113,10 +113,31 @@ def gen_sched(rng, budget, tier):
 _gen_multi = gen
 
 
+PIPE_BUDGET = {"quick": 40, "thorough": 1500}
+
+
+def gen_pipe(rng, budget, tier):
+    """several real readers into one real server handler, transport buffers from tiny to 32 KiB, lines up to
+    3 x 32 KiB: the readers recycle their line buffers through the shared pool while the handler hands a long
+    record out in pieces"""
+    yield "c07.pipe 32768 6x100000;6x100000;6x100000"
+    yield "c07.pipe 4096 8x40000;8x40000"
+    for _ in range(budget):
+        k = rng.choice([1, 2, 2, 3, 4])
+        srcs = []
+        for _ in range(k):
+            ll = rng.choice([10, 200, 5000, 32700, 32768, 33000, 40000, 70000, 100000])
+            n = rng.choice([1, 3, 8, 20]) if ll >= 5000 else rng.choice([1, 5, 40, 150])
+            srcs.append(f"{n}x{ll}")
+        yield f"c07.pipe {rng.choice([7, 100, 4096, 32768, 32768])} {';'.join(srcs)}"
+
+
 def gen(rng, budget, tier):
     yield from gen_sched(rng, SCHED_BUDGET[tier], tier)
+    yield from gen_pipe(rng, PIPE_BUDGET[tier], tier)
     yield from _gen_multi(rng, budget, tier)
 
 
 def batches(cases):
-    return [[c for c in cases if c.startswith("c07.sched")], [c for c in cases if not c.startswith("c07.sched")]]
+    return [[c for c in cases if c.startswith("c07.sched")], [c for c in cases if c.startswith("c07.pipe")],
+            [c for c in cases if c.startswith("c07.multi")]]
